@@ -1,0 +1,148 @@
+// Copyright 2026 The Go Authors. All rights reserved.
+// Use of this source code is governed by a BSD-style
+// license that can be found in the LICENSE file.
+
+//go:build verif
+
+package ssh
+
+import (
+	"io"
+	"slices"
+)
+
+// Verification hooks (build tag "verif" only): run the real client-side user
+// authentication loop (clientAuthenticate) over a scripted in-memory
+// transport with a caller-chosen session identifier, for model-based
+// conformance checking. The caller plays the server.
+
+// VerifClientAuthScript plays the server and observes the client. All
+// callbacks run in the goroutine that runs clientAuthenticate.
+type VerifClientAuthScript struct {
+	// SessionID is what the transport reports as the session identifier.
+	SessionID []byte
+
+	// OnWrite is called with a copy of every packet the client writes. The
+	// packets it returns are appended to the queue of packets the client
+	// will read.
+	OnWrite func(packet []byte) (replies [][]byte)
+
+	// OnRead, if non-nil, is called with every packet handed to the client
+	// by readPacket (nil when the queue is empty and readPacket reports
+	// io.EOF).
+	OnRead func(packet []byte)
+
+	// OnAttempt, if non-nil, is called when the authentication loop enters
+	// (begin=true) and leaves (begin=false) the auth function of an entry of
+	// ClientConfig.Auth. index is the position in ClientConfig.Auth; inner is
+	// true for the calls a RetryableAuthMethod makes to the method it wraps.
+	// On leaving, result is "success", "partial" or "failure", hasErr says
+	// whether an error was returned and methods is the returned method list
+	// (nil if none).
+	OnAttempt func(begin bool, index int, inner bool, method string, result string, hasErr bool, methods []string)
+}
+
+type verifClientAuthTransport struct {
+	script *VerifClientAuthScript
+	queue  [][]byte
+}
+
+func (t *verifClientAuthTransport) writePacket(p []byte) error {
+	if t.script.OnWrite != nil {
+		for _, r := range t.script.OnWrite(slices.Clone(p)) {
+			t.queue = append(t.queue, slices.Clone(r))
+		}
+	}
+	return nil
+}
+
+// readPacket mirrors transport.readPacket for the one message type that the
+// real transport interprets itself: a disconnect message is turned into an
+// error.
+func (t *verifClientAuthTransport) readPacket() ([]byte, error) {
+	if len(t.queue) == 0 {
+		if t.script.OnRead != nil {
+			t.script.OnRead(nil)
+		}
+		return nil, io.EOF
+	}
+	p := t.queue[0]
+	t.queue = t.queue[1:]
+	if t.script.OnRead != nil {
+		t.script.OnRead(slices.Clone(p))
+	}
+	if len(p) > 0 && p[0] == msgDisconnect {
+		var msg disconnectMsg
+		if err := Unmarshal(p, &msg); err != nil {
+			return nil, err
+		}
+		return nil, &msg
+	}
+	return p, nil
+}
+
+func (t *verifClientAuthTransport) Close() error { return nil }
+func (t *verifClientAuthTransport) getAlgorithms() NegotiatedAlgorithms {
+	return NegotiatedAlgorithms{}
+}
+func (t *verifClientAuthTransport) getSessionID() []byte { return t.script.SessionID }
+func (t *verifClientAuthTransport) waitSession() error   { return nil }
+
+// verifClientAuthRecorder reports entry to and exit from an AuthMethod
+// without changing what it does.
+type verifClientAuthRecorder struct {
+	AuthMethod
+	index  int
+	inner  bool
+	script *VerifClientAuthScript
+}
+
+func (r *verifClientAuthRecorder) auth(session []byte, user string, c packetConn, rand io.Reader, extensions map[string][]byte) (authResult, []string, error) {
+	name := r.AuthMethod.method()
+	if r.script.OnAttempt != nil {
+		r.script.OnAttempt(true, r.index, r.inner, name, "", false, nil)
+	}
+	ok, methods, err := r.AuthMethod.auth(session, user, c, rand, extensions)
+	if r.script.OnAttempt != nil {
+		res := "failure"
+		switch ok {
+		case authSuccess:
+			res = "success"
+		case authPartialSuccess:
+			res = "partial"
+		}
+		r.script.OnAttempt(false, r.index, r.inner, name, res, err != nil, slices.Clone(methods))
+	}
+	return ok, methods, err
+}
+
+func (r *verifClientAuthRecorder) method() string { return r.AuthMethod.method() }
+
+// VerifClientAuthRun runs clientAuthenticate with config over the scripted
+// transport and returns its result. config is not modified: the entries of
+// config.Auth are wrapped in recorders in a copy.
+func VerifClientAuthRun(config *ClientConfig, script *VerifClientAuthScript) error {
+	cfg := *config
+	cfg.Auth = make([]AuthMethod, len(config.Auth))
+	for i, a := range config.Auth {
+		if r, ok := a.(*retryableAuthMethod); ok {
+			a = &retryableAuthMethod{
+				authMethod: &verifClientAuthRecorder{AuthMethod: r.authMethod, index: i, inner: true, script: script},
+				maxTries:   r.maxTries,
+			}
+		}
+		cfg.Auth[i] = &verifClientAuthRecorder{AuthMethod: a, index: i, script: script}
+	}
+	c := &connection{transport: &verifClientAuthTransport{script: script}}
+	return c.clientAuthenticate(&cfg)
+}
+
+// VerifClientAuthIsDisconnect reports whether err is the error into which the
+// transport turns a disconnect message.
+func VerifClientAuthIsDisconnect(err error) bool {
+	_, ok := err.(*disconnectMsg)
+	return ok
+}
+
+// VerifClientAuthMaxTried is the client's bound on authentication attempts.
+const VerifClientAuthMaxTried = maxAuthClientTried
